@@ -268,6 +268,79 @@ def secret_texts(ty, v, acc):
 # ------------------------------------------------------------------ stage: serialize
 
 
+VALUE_STRINGS = ["plain", "C:\\new\\tunes", "\\\\nas\\share", "D:\\backup", "line1\nline2", "tab\there", "\\", "end\\",
+                 "\\n", "\\\\n", "a\\tb\\\\", "x", "é\\né", "two words", "semi;colon", "a=b", "\\t\\n\\\\"]
+
+
+def gen_value(ty, rng):
+    """A value of `ty` built directly (not through deserialize), or NotImplemented.
+
+    Strings are escape-heavy: literal backslashes followed by n / t / backslash, real newlines
+    and tabs.  Every value produced is one the type accepts (stripped, non-empty, in range)."""
+    from mopidy.config import types as T
+
+    k = ty[0]
+    if k in ("String", "Secret"):
+        tr = ty[3] if k == "String" else ty[2]
+        if k == "String" and ty[2] is not None:
+            return NotImplemented
+        s = rng.choice(VALUE_STRINGS)
+        if tr is None:
+            return s
+        if tr == "lower":
+            return T._TransformedValue(s, s.lower())
+        return NotImplemented
+    if k == "Integer":
+        if ty[4] is not None:
+            return NotImplemented
+        lo = ty[2] if ty[2] is not None else -5
+        hi = ty[3] if ty[3] is not None else lo + 1000
+        if lo > hi:
+            return NotImplemented   # empty range: the type accepts nothing
+        return rng.randint(lo, max(lo, min(hi, lo + 100000)))
+    if k == "Boolean":
+        return rng.random() < 0.5
+    if k == "LogLevel":
+        return rng.choice([50, 40, 30, 20, 10, 5, 0])
+    if k == "LogColor":
+        return rng.choice(["black", "red", "white"])
+    if k == "Pair":
+        a, b = gen_value(ty[4], rng), gen_value(ty[5], rng)
+        if a is NotImplemented or b is NotImplemented:
+            return NotImplemented
+        if ty[2] and rng.random() < 0.3 and ty[4] == ty[5]:
+            b = a
+        return (a, b)
+    if k == "List":
+        items = []
+        for _ in range(rng.choice([1, 2, 3])):
+            x = gen_value(ty[3], rng)
+            if x is NotImplemented:
+                return NotImplemented
+            items.append(x)
+        if ty[2]:
+            try:
+                return frozenset(items)
+            except TypeError:
+                return NotImplemented
+        return tuple(items)
+    return NotImplemented
+
+
+def gen_ty_pairish(rng):
+    """Pair shapes (also inside List) over string-like halves, for the re-encode step."""
+    S = lambda: rng.choice([("String", False, None, None), ("String", True, None, None), ("Secret", False, None),
+                            ("String", False, None, "lower"), ("Integer", False, None, None, None), ("Boolean", False)])
+    sep = rng.choice(["|", "|", "=", "::", "->"])
+    pair = ("Pair", rng.random() < 0.3, rng.random() < 0.35, sep, S(), S())
+    shape = rng.choice(["pair", "pair", "list-pair", "pair-pair"])
+    if shape == "pair":
+        return pair
+    if shape == "list-pair":
+        return ("List", True, False, pair)
+    return ("Pair", False, False, "=" if sep != "=" else "|", ("String", False, None, None), pair)
+
+
 def gen_ty_secretish(rng):
     """Types with Secret leaves at various depths (for the masking monitor)."""
     leaf = ("Secret", rng.random() < 0.5, rng.choice([None, None, "lower"]))
@@ -282,6 +355,33 @@ def gen_ty_secretish(rng):
     if shape == "list-pair":
         return ("List", True, False, ("Pair", False, rng.random() < 0.4, "|", other, leaf))
     return ("Pair", False, False, "=", other, ("Pair", False, rng.random() < 0.4, "|", leaf, leaf))
+
+
+def value_to_json(v):
+    from mopidy.config import types as T
+
+    if isinstance(v, T._TransformedValue):
+        return {"orig": v.original, "str": str(v)}
+    if isinstance(v, tuple):
+        return [value_to_json(x) for x in v]
+    if isinstance(v, frozenset):
+        return {"set": [value_to_json(x) for x in v]}
+    return v
+
+
+def value_from_json(ty, j):
+    from mopidy.config import types as T
+
+    if isinstance(j, dict) and "orig" in j:
+        cls = T._ExpandedPath if ty[0] == "Path" else T._TransformedValue
+        return cls(j["orig"], j["str"])
+    if isinstance(j, dict) and "set" in j:
+        return frozenset(value_from_json(ty[3], x) for x in j["set"])
+    if isinstance(j, list) and ty[0] == "Pair":
+        return (value_from_json(ty[4], j[0]), value_from_json(ty[5], j[1]))
+    if isinstance(j, list):
+        return tuple(value_from_json(ty[3], x) for x in j)
+    return j
 
 
 def list_of_deprecated(ty):
@@ -306,15 +406,34 @@ def serialize_stage(chk, scratch, bundled_types):
         if list_of_deprecated(ty):
             continue   # List(subtype=Deprecated()) is not a usable type: "\n  ".join() of DeprecatedValue objects
         cases.append((ty, cfglib.gen_raw(ty, rng)))
+    # value-first cases: (type, None raw, value built directly)
+    direct = []
+    for c in corpus("value"):
+        direct.append((c12.ty_from_json(c["ty"]), value_from_json(c12.ty_from_json(c["ty"]), c["value"])))
+    for _ in range(n // 3):
+        r = rng.random()
+        ty = gen_ty_pairish(rng) if r < 0.6 else gen_ty_secretish(rng) if r < 0.8 else cfglib.gen_ty(rng)
+        if list_of_deprecated(ty):
+            continue
+        v = gen_value(ty, rng)
+        if v is not NotImplemented:
+            direct.append((ty, v))
     if chk.replay_case and chk.replay_case.get("stage") == "serialize":
-        cases = [(c12.ty_from_json(chk.replay_case["ty"]), chk.replay_case["raw"])]
+        rc = chk.replay_case
+        if "value" in rc:
+            t_ = c12.ty_from_json(rc["ty"])
+            cases, direct = [], [(t_, value_from_json(t_, rc["value"]))]
+        else:
+            cases, direct = [(c12.ty_from_json(rc["ty"]), rc["raw"])], []
     builders, kept = [], []
+    re_builders, re_kept = [], []
     counter = [0]
 
     def fresh():
         counter[0] += 1
         return f"other-secret-{counter[0]}\\x"
 
+    work = []
     for ty, raw_t in cases:
         if cfglib.has_final_sigma_hazard(raw_t):
             continue
@@ -323,10 +442,17 @@ def serialize_stage(chk, scratch, bundled_types):
         values = [None]
         if out[0] == "ok" and out[1] is not None:
             values.insert(0, out[1])
+        work.append((ty, raw_t, values))
+    for ty, v in direct:
+        work.append((ty, None, [v]))
+    for ty, raw_t, values in work:
         for v in values:
             case = {"stage": "serialize", "ty": c12.strip_fn(ty), "raw": raw_t, "value_is_none": v is None}
+            if raw_t is None:
+                case = {"stage": "serialize", "ty": c12.strip_fn(ty), "value": value_to_json(v)}
+                chk.dist("ser:value-first")
             outs = {d: run_serialize(ty, v, d) for d in (False, True)}
-            chk.count(1, nontrivial_key=(repr(c12.strip_fn(ty)), raw_t) if v is not None and len(cfglib.ty_kinds(ty)) >= 1
+            chk.count(1, nontrivial_key=(repr(c12.strip_fn(ty)), raw_t if raw_t is not None else repr(value_to_json(v))) if v is not None and len(cfglib.ty_kinds(ty)) >= 1
                       and (isinstance(v, (tuple, frozenset)) or (isinstance(v, str) and any(c in v for c in SPECIAL))) else None)
             chk.dist("ser:type=" + ty[0])
             chk.dist("ser:value=" + ("None" if v is None else "set"))
@@ -352,6 +478,11 @@ def serialize_stage(chk, scratch, bundled_types):
             if scope is None and outs[False][0] == "str":
                 rec2, back = c12.run_deserialize(ty, outs[False][1])
                 ok = back[0] == "ok" and deep_eq(back[1], v)
+                if back[0] == "ok" or back[1] == "ValueError":
+                    # corr:reparse -- model deserialize vs implementation on the serialized text
+                    re_kept.append({**case, "text": outs[False][1]})
+                    re_builders.append(lambda I, rec2=rec2, ty=ty, text=outs[False][1], back=back:
+                                       f"({rec2.g_tables(I)}, {g_ty(ty, I)}, {I.s(text)}, {c12.g_dobs(ty, back, I)})")
                 if not ok:
                     key = {"type": ty[0], "value": "None" if v is None else "set"}
                     if ty[0] in ("Pair", "List"):
@@ -375,6 +506,10 @@ def serialize_stage(chk, scratch, bundled_types):
                                                 "display=False serialization does not decode to the secret", case)
         chk.sample({"type": c12.strip_fn(ty), "value": cfglib.canon_val(values[0]),
                     "serialized": outs[False][1][:60] if outs[False][0] == "str" else outs[False][0]}, cap=8)
+    ok2, bad2 = c12.eval_cases(chk, "reparse", "dcase", "dcase_ok", re_builders, per=400)
+    for i in bad2:
+        chk.corr_failure("reparse", re_kept[i])
+    chk.obligation("corr:reparse", "correspondence", ok2 and not bad2)
     ok, bad = c12.eval_cases(chk, "serialize", "scase", "scase_ok", builders, per=400)
     # c12.eval_cases uses c12's imports; the typed stages need Serialize/STables as well
     for i in bad:
@@ -501,7 +636,16 @@ def format_stage(chk, scratch, schemas, base):
             todo.append((schemas, {**{s: dict(kv) for s, kv in base.items()}, **c["raw"]}, "corpus"))
         todo.append((schemas, {s: dict(kv) for s, kv in base.items()}, "defaults"))
         for _ in range(n):
-            if rng.random() < 0.55:
+            r_ = rng.random()
+            if r_ < 0.2:
+                # pair-heavy sections: a ConfigSchema with Pair / List-of-Pair keys and a MapConfigSchema of Pairs
+                ss = [("config", "alpha", (("mount", gen_ty_pairish(rng)), ("mounts", ("List", True, False, gen_ty_pairish(rng))),
+                                           ("name", ("String", True, None, None)))),
+                      ("map", "beta", gen_ty_pairish(rng))]
+                raw = {"alpha": {k: cfglib.gen_raw(t, rng) for k, t in ss[0][2] if rng.random() < 0.85},
+                       "beta": {k: cfglib.gen_raw(ss[1][2], rng) for k in rng.sample(["m1", "m2", "x.y"], rng.randint(0, 3))}}
+                todo.append((ss, raw, "pairish"))
+            elif r_ < 0.6:
                 raw, _ = c12.gen_raw_config(schemas, base, rng, scratch)
                 todo.append((schemas, raw, "bundled"))
             else:
